@@ -3,7 +3,7 @@ import torch
 from hypothesis import strategies as st
 
 from vf import gen, refmodel as R
-from vf.common import Sub, require
+from vf.common import Sub, require, PropertyViolation
 
 PROPERTY = "C02"
 RULE = ("Generated: DensityMatrix with num_visible 1..4 x num_hidden 1..4 x num_aux 1..4 (quick: 1..3) drawn independently, "
@@ -28,11 +28,27 @@ def cases(draw, tier):
     case["i1"] = draw(gen.index_list(n, m, m))
     case["i2"] = draw(gen.index_list(n, m, m))
     case["i3"] = draw(gen.index_list(n, 1, 4))
+    # second parameter set, written in place into the same object after the first evaluation (evaluate, update, evaluate)
+    if draw(st.booleans()):
+        alt = gen.rescale_case({"am": draw(gen.net_params(n, case["nh"], case["na"])), "ph": draw(gen.net_params(n, case["nh"], case["na"], zero_d=True))}, 300.0)
+        case["am2"], case["ph2"] = alt["am"], alt["ph"]
     return case
 
 
 def check(case):
     state = gen.build_state(case)
+    r = check_round(case, state)
+    if case.get("am2"):
+        gen.set_net(state.rbm_am, case["am2"])
+        gen.set_net(state.rbm_ph, case["ph2"])
+        try:
+            check_round(dict(case, am=case["am2"], ph=case["ph2"]), state)
+        except PropertyViolation as v:
+            raise PropertyViolation("after-inplace-update:" + v.bucket, "after an in-place parameter update of the same object: " + v.message, v.detail)
+    return r
+
+
+def check_round(case, state):
     n = case["n"]
     D = 2 ** n
     am, ph = gen.ref_nets(case)
